@@ -530,6 +530,9 @@ func (w *World) Apply(line string) (final string, result string) {
 		}
 		w.voidDropped()
 		return line, "ok"
+	case f[0] == "fipsync" && len(f) == 1:
+		w.syncFIPs()
+		return line, "ok"
 	case f[0] == "dump" && len(f) == 1:
 		return line, w.Digest()
 	case f[0] == "noguard" && len(f) == 2:
@@ -694,6 +697,22 @@ func (w *World) applyBind(f []string) (string, string) {
 			owned = w.ownedBy(keyObj.KeyInDB)
 		}
 	}
+	if lp != nil {
+		for _, rs := range podRanges(lp) {
+			var l [][2]uint32
+			for _, r := range rs {
+				l = append(l, [2]uint32{nets.IPToInt(r.First), nets.IPToInt(r.Last)})
+			}
+			w.LastOp.BindReq = append(w.LastOp.BindReq, l)
+		}
+		for _, r := range owned {
+			w.LastOp.BindOwned = append(w.LastOp.BindOwned, r.IP)
+		}
+		if keyObj, err := util.FormatKey(lp); err == nil {
+			w.LastOp.BindKey = keyObj.KeyInDB
+		}
+	}
+	w.LastOp.BindNode, w.LastOp.BindPod = f[4], ns+"/"+name
 	w.Cnt.Reset(atoiDef(f[7]))
 	w.Prov.Reset(atoiDef(f[8]))
 	if len(f) == 10 && f[9] != "truthful" {
@@ -714,6 +733,18 @@ func (w *World) applyBind(f []string) (string, string) {
 	}
 	w.drain()
 	calls := w.Cnt.Calls()
+	w.LastOp.BindNoCalls = len(w.Prov.Log) == plogBefore
+	for _, c := range calls {
+		if c.Verb == "bind" {
+			w.LastOp.BindNoCalls = false
+		}
+		if c.Failed && c.Verb == "delete" {
+			w.LastOp.BindDelFail = true
+		}
+		if c.Failed && c.Verb == "create" && c.Resource == "floatingips" {
+			w.LastOp.BindCreateFail = true
+		}
+	}
 	f[5], f[6] = "-", "-"
 	if lp != nil && len(podRanges(lp)) == 0 {
 		if len(owned) == 0 {
